@@ -24,10 +24,12 @@ type vxNetConn struct {
 	failWriteAfter int // Write fails once this many bytes were written (<0: never)
 	nclose   int
 	onWrite  chan int // optional notification per Write
+	stallWrite int        // index of the Write call that blocks until released (-1: none)
+	release    chan error // what the stalled Write returns
 }
 
 func vxNewNetConn() *vxNetConn {
-	return &vxNetConn{in: make(chan []byte, 64), failWriteAfter: -1}
+	return &vxNetConn{in: make(chan []byte, 64), failWriteAfter: -1, stallWrite: -1, release: make(chan error, 1)}
 }
 
 func (c *vxNetConn) Read(p []byte) (int, error) {
@@ -50,6 +52,11 @@ func (c *vxNetConn) Read(p []byte) (int, error) {
 func (c *vxNetConn) Write(p []byte) (int, error) {
 	if c.closed {
 		return 0, io.ErrClosedPipe
+	}
+	if c.stallWrite >= 0 && len(c.writes) == c.stallWrite {
+		// the peer is not reading: this Write blocks until the harness lets it fail
+		c.stallWrite = -1
+		return 0, <-c.release
 	}
 	if c.failWriteAfter >= 0 && len(c.wire)+len(p) > c.failWriteAfter {
 		return 0, io.ErrClosedPipe
